@@ -29,6 +29,10 @@ pub enum Fun {
     SignAlt { k: f64 },             // sign(sin(kx)) * 1e6
     Huge { k: f64 },                // 1e300 * sin(kx)
     Zero,
+    /// sin(x)/x: 0/0 = NaN exactly at x = 0
+    Sinc,
+    /// NaN exactly at the abscissa `c` (chosen to be one node of one panel), 1 + x^2 elsewhere
+    NanPoint { c: f64 },
 }
 
 impl Fun {
@@ -50,6 +54,8 @@ impl Fun {
             Fun::SignAlt { k } => if (k * x).sin() >= 0.0 { 1e6 } else { -1e6 },
             Fun::Huge { k } => 1e300 * (k * x).sin(),
             Fun::Zero => 0.0,
+            Fun::Sinc => x.sin() / x,
+            Fun::NanPoint { c } => if x.to_bits() == c.to_bits() { f64::NAN } else { 1.0 + x * x },
         }
     }
     pub fn smooth(&self) -> bool {
@@ -61,7 +67,7 @@ impl Fun {
             Fun::PolyTrig { .. } => "polytrig", Fun::ExpTrig { .. } => "exptrig", Fun::Kink { .. } => "kink",
             Fun::SqrtKink { .. } => "sqrtkink", Fun::Jump { .. } => "jump", Fun::Pole { .. } => "pole",
             Fun::LnNeg => "ln", Fun::InfAt { .. } => "inf", Fun::NanAt { .. } => "nan", Fun::SignAlt { .. } => "signalt",
-            Fun::Huge { .. } => "huge", Fun::Zero => "zero",
+            Fun::Huge { .. } => "huge", Fun::Zero => "zero", Fun::Sinc => "sinc", Fun::NanPoint { .. } => "nanpoint",
         }
     }
 }
@@ -281,7 +287,41 @@ fn gen_fun(r: &mut Rng, a: f64, b: f64) -> Fun {
     }
 }
 
+/// abscissae of one panel in evaluation order (QUADPACK constants, same affine formula as the crate)
+fn panel_nodes(a: f64, b: f64) -> Vec<f64> { unit_order().iter().map(|x| x * (b - a) / 2.0 + (a + b) / 2.0).collect() }
+
+/// cases aimed at rarely taken paths: a NaN at exactly one node (Gauss-only / Kronrod-only / centre) of the
+/// first panel or of a child panel; sinc on symmetric lattice bounds; bounds a few ulps apart
+fn gen_rare(r: &mut Rng) -> Case {
+    match r.below(3) {
+        0 => {
+            let a = r.dyadic(-4.0, 4.0, 3); let mut b = r.dyadic(-4.0, 4.0, 3); if a == b { b = a + 1.0; }
+            // descend 0..3 levels of bisection, then pick any of the 31 nodes of that panel
+            let (mut pa, mut pb) = (a, b);
+            for _ in 0..r.below(4) { let m = (pa + pb) / 2.0; if r.chance(0.5) { pb = m } else { pa = m } }
+            let nodes = panel_nodes(pa, pb);
+            let c = nodes[r.below(31) as usize];
+            Case { f: Fun::NanPoint { c }, a, b, tol: *r.pick(&[1e-3, 1e-6, 1e-9, 1e-12, 1.0, f64::INFINITY]), max_iter: Some(*r.pick(&[1usize, 2, 5, 20, 100])) }
+        }
+        1 => {
+            let k = r.range(1, 6) as f64;
+            let (a, b) = if r.chance(0.5) { (-k, k) } else { (-k, 3.0 * k) };
+            let (a, b) = if r.chance(0.3) { (b, a) } else { (a, b) };
+            Case { f: Fun::Sinc, a, b, tol: *r.pick(&[1e-3, 1e-6, 1e-9, 1e-12]), max_iter: Some(*r.pick(&[1usize, 3, 10, 50, 200])) }
+        }
+        _ => {
+            let a: f64 = *r.pick(&[0.0f64, -0.0, 1.0, -1.0, 5e-324, 1e-300, 123.456, 1e300]);
+            let ulps = r.range(1, 4) as u64;
+            let b = if a >= 0.0 { f64::from_bits((a + 0.0).to_bits() + ulps) } else { f64::from_bits(a.to_bits() + ulps) };
+            let (a, b) = if r.chance(0.4) { (b, a) } else { (a, b) };
+            let f = match r.below(3) { 0 => Fun::Zero, 1 => Fun::Poly(vec![1.0]), _ => Fun::Kink { c: a } };
+            Case { f, a, b, tol: *r.pick(&[0.0, -1.0, f64::NAN, 1e-300]), max_iter: Some(*r.pick(&[3usize, 5, 10, 40])) }
+        }
+    }
+}
+
 pub fn gen_case(r: &mut Rng) -> Case {
+    if r.below(8) == 0 { return gen_rare(r); }
     let special = [f64::INFINITY, f64::NEG_INFINITY, f64::NAN, 0.0, -0.0, 1e300, -1e300, 5e-324];
     let (a, b) = match r.below(20) {
         0 => { let a = r.dyadic(-1000.0, 1000.0, 4); (a, a) }
